@@ -16,8 +16,12 @@ import (
 // VerifC10Servers returns the deepest cached delegation for q — the
 // *authority.Servers a resolution of q would start from.
 func VerifC10Servers(r *Resolver, q dns.Question) *authority.Servers {
-	m := r.searchCache(q, false, q.Name)
-	return m.servers
+	for _, cd := range []bool{false, true} {
+		if m := r.searchCache(q, cd, q.Name); m.servers != nil && m.servers.Zone != "." {
+			return m.servers
+		}
+	}
+	return r.searchCache(q, false, q.Name).servers
 }
 
 // VerifC10GroupLookup calls the REAL Resolver.groupLookup for req against
